@@ -30,7 +30,7 @@ func init() {
 		},
 		// thorough also analyses the kqueue and FEN backends, which embed the same shared struct (send functions, done
 		// protocol, close()); the Windows backend uses a different request/reply protocol and is not covered.
-		Configs: tiered(linuxQuick, concat(linuxAll, kqueueAll, fenAll)),
+		Configs: tiered(concat(linuxQuick, []Config{{"freebsd", "amd64"}}), concat(linuxAll, kqueueAll, fenAll)),
 		Run:     runC05,
 	})
 }
